@@ -3,6 +3,7 @@ package main
 import (
 	"fmt"
 	"go/types"
+	"regexp"
 	"strings"
 
 	"golang.org/x/tools/go/ssa"
@@ -11,6 +12,7 @@ import (
 const (
 	pModElems = 100 + iota
 	pModMap
+	pModGhost
 )
 
 func (e *Exec) builtin(fr *frame, st *State, c *ssa.CallCommon, b *ssa.Builtin, args []Value, where string) (Value, bool) {
@@ -240,13 +242,59 @@ func (e *Exec) isIgnoredExt(fn *ssa.Function) bool {
 
 func (e *Exec) isPureExtBuiltin(fn *ssa.Function) bool {
 	switch fnKey(fn) {
-	case "errors.New", "fmt.Errorf", "fmt.Sprintf", "fmt.Sprint", "time.Now", "errors.Is", "errors.As":
+	case "errors.New", "fmt.Errorf", "fmt.Sprintf", "fmt.Sprint", "errors.Is", "errors.As", "fmt.Printf", "fmt.Println",
+		"regexp.MustCompile", "(*regexp.Regexp).FindStringSubmatch", "(*regexp.Regexp).FindAllStringSubmatch":
 		return true
 	}
-	return false
+	return pkgPathOfFn(fn) == "time"
 }
 
 func (e *Exec) extBuiltin(st *State, fn *ssa.Function, key string, args []Value, where string) (Value, bool) {
+	return e.extBuiltinC(st, nil, fn, key, args, where)
+}
+
+func (e *Exec) nsubOf(pattern string) (n int, ok bool) {
+	defer func() {
+		if recover() != nil {
+			ok = false
+		}
+	}()
+	re, err := regexp.Compile(pattern)
+	if err != nil {
+		return 0, false
+	}
+	return re.NumSubexp(), true
+}
+
+// regexpGlobalFacts: a package-level *regexp.Regexp initialised by regexp.MustCompile(<const>) has a
+// known number of capture groups.
+func (e *Exec) regexpGlobalFacts(g *ssa.Global, t Term) {
+	initFn := g.Pkg.Func("init")
+	if initFn == nil {
+		return
+	}
+	for _, b := range initFn.Blocks {
+		for _, in := range b.Instrs {
+			stI, ok := in.(*ssa.Store)
+			if !ok || stI.Addr != g {
+				continue
+			}
+			if call, ok := stI.Val.(*ssa.Call); ok {
+				if sc := call.Call.StaticCallee(); sc != nil && fnKey(sc) == "regexp.MustCompile" {
+					if cst, ok := call.Call.Args[0].(*ssa.Const); ok {
+						if n, ok := e.nsubOf(constantString(cst)); ok {
+							e.smt.declareFun("re.nsub", []string{SInt}, SInt)
+							e.smt.axiom("nsub:"+t.S, fmt.Sprintf("(assert (and (= (re.nsub %s) %d) (not (= %s 0))))", t.S, n, t.S))
+							e.trusted("regexp: a *Regexp built by MustCompile(<constant>) has the capture-group count computed by the engine with Go's regexp package; Find*Submatch return nil or slices of 1+groups strings")
+						}
+					}
+				}
+			}
+		}
+	}
+}
+
+func (e *Exec) extBuiltinC(st *State, c *ssa.CallCommon, fn *ssa.Function, key string, args []Value, where string) (Value, bool) {
 	sig := fn.Signature
 	if e.isIgnoredExt(fn) {
 		e.trusted("D1: logging / metrics calls (zerolog, expvar, log) have no effect on program state")
@@ -271,8 +319,63 @@ func (e *Exec) extBuiltin(st *State, fn *ssa.Function, key string, args []Value,
 		st.alloc = na
 		return r, true
 	case "fmt.Sprintf", "fmt.Sprint":
+		r := e.smt.fresh("sprintf", SStr)
+		if c != nil && key == "fmt.Sprintf" {
+			if cst, ok := c.Args[0].(*ssa.Const); ok {
+				f := constantString(cst)
+				if i := strings.Index(f, "%"); i > 0 {
+					e.trusted("fmt.Sprintf(<constant format>, ...) starts with the literal text before the first verb; the rest is arbitrary")
+					return app(SStr, "scat", e.smt.strConst(f[:i]), r), true
+				}
+			}
+		}
 		e.trusted("fmt.Sprintf returns an arbitrary string")
-		return e.smt.fresh("sprintf", SStr), true
+		return r, true
+	case "fmt.Printf", "fmt.Println", "fmt.Fprintf":
+		e.trusted("D1: fmt.Printf debug output has no effect on program state")
+		return e.freshOf(st, "printf", sig.Results()), true
+	case "regexp.MustCompile":
+		r := e.allocRef(st, "regexp")
+		if c != nil {
+			if cst, ok := c.Args[0].(*ssa.Const); ok {
+				if n, ok := e.nsubOf(constantString(cst)); ok {
+					e.smt.declareFun("re.nsub", []string{SInt}, SInt)
+					e.assume(st, tEq(app(SInt, "re.nsub", r), tInt(int64(n))))
+					e.trusted("regexp: a *Regexp built by MustCompile(<constant>) has the capture-group count computed by the engine with Go's regexp package; Find*Submatch return nil or slices of 1+groups strings")
+				}
+			}
+		}
+		return r, true
+	case "(*regexp.Regexp).FindStringSubmatch":
+		e.smt.declareFun("re.nsub", []string{SInt}, SInt)
+		re := e.asTerm(st, args[0], sig.Recv().Type())
+		ref := e.allocRef(st, "submatch")
+		n := tAdd(app(SInt, "re.nsub", re), tInt(1))
+		isNil := e.smt.fresh("nomatch", SBool)
+		return tIte(isNil, nilSlice, mkSlice(ref, tInt(0), n, n)), true
+	case "(*regexp.Regexp).FindAllStringSubmatch":
+		e.smt.declareFun("re.nsub", []string{SInt}, SInt)
+		re := e.asTerm(st, args[0], sig.Recv().Type())
+		ref := e.allocRef(st, "allsubmatch")
+		cnt := e.smt.fresh("nmatch", SInt)
+		e.assume(st, tLe(tInt(1), cnt))
+		isNil := e.smt.fresh("nomatch", SBool)
+		// every element is a fresh slice of 1+groups strings
+		name, srt := e.ti.elemComp(types.NewSlice(types.Typ[types.String]), nil)
+		as := arraySort(SInt, srt)
+		H := e.heapComp(st, name, SInt, arraySort(SInt, as))
+		content := e.smt.fresh("matches", as)
+		e.setHeap(st, name, tStore(H, ref, content))
+		na := e.smt.fresh("alloc", SInt)
+		e.assume(st, tLe(st.alloc, na))
+		e.assume(st, Term{fmt.Sprintf("(forall ((i Int)) (! (=> (and (<= 0 i) (< i %s)) (and (= (s_len (select %s i)) (+ (re.nsub %s) 1)) (< %s (s_arr (select %s i))) (<= (s_arr (select %s i)) %s) (= (s_off (select %s i)) 0) (<= (s_len (select %s i)) (s_cap (select %s i))))) :pattern ((select %s i))))",
+			cnt.S, content.S, re.S, st.alloc.S, content.S, content.S, na.S, content.S, content.S, content.S, content.S), SBool})
+		st.alloc = na
+		return tIte(isNil, nilSlice, mkSlice(ref, tInt(0), cnt, cnt)), true
+	}
+	if p := pkgPathOfFn(fn); p == "time" {
+		e.trusted("time: instants and durations are opaque values; time functions have no effect on program state")
+		return e.freshOf(st, "time", sig.Results()), true
 	}
 	return nil, false
 }
